@@ -831,3 +831,22 @@ func effectFree(name string) bool {
 	}
 	return false
 }
+
+// typeByName resolves "*pkg.T" / "pkg.T" (normalised package names) to a types.Type of the loaded program.
+func (e *Engine) typeByName(name string) types.Type {
+	ptr := strings.HasPrefix(name, "*")
+	n := strings.TrimPrefix(name, "*")
+	for _, p := range e.prog.AllPackages() {
+		for _, m := range p.Members {
+			if tn, ok := m.(*ssa.Type); ok {
+				if normName(tn.Type().String()) == n {
+					if ptr {
+						return types.NewPointer(tn.Type())
+					}
+					return tn.Type()
+				}
+			}
+		}
+	}
+	return nil
+}
